@@ -309,8 +309,14 @@ def rule_r5(rep, repo):
         stored_items = {flow[0]: stored} if len(flow) == 1 else {}
     else:
         stored_items = {}
+    def norm_hit(h):
+        # `a, b = (x.copy() for x in cache_dict[key])` -- element-wise identity over the entry
+        if h[0] == "sub" and isinstance(h[1], tuple) and h[1] and h[1][0] == "comp" and h[1][2] == ("bound", 0, 0) \
+                and len(h[1][3]) == 1 and h[1][3][0] == (entry, ()):
+            return ("sub", entry, h[2])
+        return h
     for n in flow:
-        h = hv.env[n]
+        h = norm_hit(hv.env[n])
         # position of the name in the stored entry
         if h[0] == "sub" and h[1] == entry and h[2][0] == "const":
             i = int(h[2][1])
